@@ -17,7 +17,9 @@
         (commitRound), and only if the block is valid;
     L5  a non-nil prevote is for the locked block or for a block that passed validation.
 
-  Over every RUN (any sequence of peer messages from any peers, own queued messages and timeouts;
+  Over every RUN from a fresh node `Node.start` - any validity oracle (which blocks ValidateBlock
+  accepts is an input of the model), the NewHeight timeout a started node has scheduled - under
+  any sequence of peer messages from any peers, own queued messages, peer +2/3 claims and timeouts (
   Lemmas/NodeMono.lean, Lemmas/Assembled.lean - inductive invariants through every handler):
     L6  the node never goes back: (height, round, step) only grows lexicographically; every own
         vote is signed for the height and round the node is in (`signAddVote`), so the votes of a
@@ -57,6 +59,7 @@ import AnnVerif.Lemmas.NodeJust
 import AnnVerif.Lemmas.NodeSched
 import AnnVerif.Lemmas.NodeLock
 import AnnVerif.Lemmas.NodeA3
+import AnnVerif.Lemmas.NodeStart
 namespace AnnVerif.C04
 open AnnVerif AnnVerif.Node
 
@@ -282,8 +285,8 @@ theorem own_vote_is_for_current_round (n : Node) (t : Nat) (bid : VoteSet.BlockI
 /-- L7: in a run from a fresh (repaired) node a commit is only ever emitted by `finalizeCommit`
     holding the complete part set of the block: the save panic is never emitted. -/
 theorem run_commits_complete_blocks (height : Int) (vals : ValSet.ValSet) (me : Option Nat) (skip : Bool)
-    (ins : List In) : savePanic ∉ (ins.foldl stepIn (Node.init repaired height vals me skip)).out :=
-  (run_good ins _ (init_good height vals me skip)).nsp
+    (tab : List (Name × Int × Bool)) (ins : List In) : savePanic ∉ (ins.foldl stepIn (Node.start repaired height vals me skip tab)).out :=
+  (run_good ins _ (start_good height vals me skip tab)).nsp
 
 example : Le (Node.init repaired 1 v4 (some 1) false) demo ∧ demo.step = .precommit := by
   refine ⟨?_, by decide⟩
@@ -295,31 +298,31 @@ example : Le (Node.init repaired 1 v4 (some 1) false) demo ∧ demo.step = .prec
     precommit for a block that waits in the node's queue, signed at the node's height, names the
     block that has +2/3 prevotes in the node's prevote set of the vote's round -/
 theorem run_no_precommit_without_polka (cfg : Cfg) (height : Int) (vals : ValSet.ValSet) (me : Option Nat)
-    (skip : Bool) (ins : List In) (hok : RunOK (Node.init cfg height vals me skip) ins)
+    (skip : Bool) (tab : List (Name × Int × Bool)) (ins : List In) (hok : RunOK (Node.start cfg height vals me skip tab) ins)
     (v : VoteSet.Vote)
-    (hq : v ∈ (ins.foldl stepIn (Node.init cfg height vals me skip)).signed)
-    (ht : v.type = 2) (hh : v.height = (ins.foldl stepIn (Node.init cfg height vals me skip)).height)
+    (hq : v ∈ (ins.foldl stepIn (Node.start cfg height vals me skip tab)).signed)
+    (ht : v.type = 2) (hh : v.height = (ins.foldl stepIn (Node.start cfg height vals me skip tab)).height)
     (hb : v.bid.hash.isEmpty = false) :
-    maj23 (prevotes (ins.foldl stepIn (Node.init cfg height vals me skip)) v.round) = some v.bid :=
-  (run_qj ins _ (init_qj cfg height vals me skip) hok _ hq).2 ht hh hb
+    maj23 (prevotes (ins.foldl stepIn (Node.start cfg height vals me skip tab)) v.round) = some v.bid :=
+  (run_qj ins _ (start_qj cfg height vals me skip tab) hok _ hq).2 ht hh hb
 
 /-- L8 for the runs that happen: every timeout that fires is one the node scheduled -/
 theorem run_no_precommit_without_polka_scheduled (cfg : Cfg) (height : Int) (vals : ValSet.ValSet) (me : Option Nat)
-    (skip : Bool) (ins : List In) (hs : Scheduled (Node.init cfg height vals me skip) ins)
+    (skip : Bool) (tab : List (Name × Int × Bool)) (ins : List In) (hs : Scheduled (Node.start cfg height vals me skip tab) ins)
     (v : VoteSet.Vote)
-    (hq : v ∈ (ins.foldl stepIn (Node.init cfg height vals me skip)).signed)
-    (ht : v.type = 2) (hh : v.height = (ins.foldl stepIn (Node.init cfg height vals me skip)).height)
+    (hq : v ∈ (ins.foldl stepIn (Node.start cfg height vals me skip tab)).signed)
+    (ht : v.type = 2) (hh : v.height = (ins.foldl stepIn (Node.start cfg height vals me skip tab)).height)
     (hb : v.bid.hash.isEmpty = false) :
-    maj23 (prevotes (ins.foldl stepIn (Node.init cfg height vals me skip)) v.round) = some v.bid :=
-  run_no_precommit_without_polka cfg height vals me skip ins
-    (runOK_of_scheduled ins _ (init_sched cfg height vals me skip) hs) v hq ht hh hb
+    maj23 (prevotes (ins.foldl stepIn (Node.start cfg height vals me skip tab)) v.round) = some v.bid :=
+  run_no_precommit_without_polka cfg height vals me skip tab ins
+    (runOK_of_scheduled ins _ (start_sched cfg height vals me skip tab) hs) v hq ht hh hb
 
 /-- every timeout a node has scheduled, in any run, is for a round it has entered -/
 theorem scheduled_timeouts_not_ahead (cfg : Cfg) (height : Int) (vals : ValSet.ValSet) (me : Option Nat)
-    (skip : Bool) (ins : List In) (h r : Int) (s : Step)
-    (he : Emit.timeout h r s ∈ (ins.foldl stepIn (Node.init cfg height vals me skip)).out) :
-    NotAhead (ins.foldl stepIn (Node.init cfg height vals me skip)) h r :=
-  sched_run ins _ (init_sched cfg height vals me skip) _ he
+    (skip : Bool) (tab : List (Name × Int × Bool)) (ins : List In) (h r : Int) (s : Step)
+    (he : Emit.timeout h r s ∈ (ins.foldl stepIn (Node.start cfg height vals me skip tab)).out) :
+    NotAhead (ins.foldl stepIn (Node.start cfg height vals me skip tab)) h r :=
+  sched_run ins _ (start_sched cfg height vals me skip tab) _ he
 
 /-- the invariant is inductive from any state that satisfies it -/
 theorem step_keeps_precommits_justified (n : Node) (i : In) (q : QJ n) (hw : WellTimed n i) : QJ (stepIn n i) :=
@@ -333,11 +336,11 @@ example : demo.signed.map (fun v => (v.type, v.round, v.bid.hash)) = [(1, 0, [0x
 /-! ### L9: proof of lock, over every run -/
 
 theorem run_lock_backed_by_polka (cfg : Cfg) (height : Int) (vals : ValSet.ValSet) (me : Option Nat) (skip : Bool)
-    (ins : List In) (b : Name)
-    (hl : (ins.foldl stepIn (Node.init cfg height vals me skip)).lockedBlock = some b) :
-    ∃ bid, maj23 (prevotes (ins.foldl stepIn (Node.init cfg height vals me skip))
-        (ins.foldl stepIn (Node.init cfg height vals me skip)).lockedRound) = some bid ∧ bid.hash = b :=
-  lj_run ins _ (init_lj cfg height vals me skip) b hl
+    (tab : List (Name × Int × Bool)) (ins : List In) (b : Name)
+    (hl : (ins.foldl stepIn (Node.start cfg height vals me skip tab)).lockedBlock = some b) :
+    ∃ bid, maj23 (prevotes (ins.foldl stepIn (Node.start cfg height vals me skip tab))
+        (ins.foldl stepIn (Node.start cfg height vals me skip tab)).lockedRound) = some bid ∧ bid.hash = b :=
+  lj_run ins _ (start_lj cfg height vals me skip tab) b hl
 
 /-- inductive from any state that satisfies it -/
 theorem step_keeps_lock_backed (n : Node) (i : In) (l : LJ n) : LJ (stepIn n i) := lj_stepIn n i l
@@ -351,10 +354,10 @@ example : LJ demo ∧ demo.lockedBlock = some [0x62] := by
 /-! ### L10: the locking rule over the node's history -/
 
 theorem run_lock_rule (cfg : Cfg) (height : Int) (vals : ValSet.ValSet) (me : Option Nat) (skip : Bool)
-    (ins : List In) (hs : Scheduled (Node.init cfg height vals me skip) ins) :
-    A3Inv (ins.foldl stepIn (Node.init cfg height vals me skip)) :=
-  a3_run ins _ (init_a3 cfg height vals me skip)
-    (runOK_of_scheduled ins _ (init_sched cfg height vals me skip) hs)
+    (tab : List (Name × Int × Bool)) (ins : List In) (hs : Scheduled (Node.start cfg height vals me skip tab) ins) :
+    A3Inv (ins.foldl stepIn (Node.start cfg height vals me skip tab)) :=
+  a3_run ins _ (start_a3 cfg height vals me skip tab)
+    (runOK_of_scheduled ins _ (start_sched cfg height vals me skip tab) hs)
 
 /-- what `A3Inv` says about two votes of the history, spelled out -/
 theorem lock_rule_spelled_out (n : Node) (inv : A3Inv n) (i j : Nat) (hij : i < j) (hj : j < n.signed.length)
@@ -369,15 +372,15 @@ theorem lock_rule_spelled_out (n : Node) (inv : A3Inv n) (i j : Nat) (hij : i < 
 
 /-- L11: no two signed votes share height, round and type -/
 theorem run_signs_once_per_round (cfg : Cfg) (height : Int) (vals : ValSet.ValSet) (me : Option Nat) (skip : Bool)
-    (ins : List In) (hs : Scheduled (Node.init cfg height vals me skip) ins)
-    (i j : Nat) (hij : i < j) (hj : j < (ins.foldl stepIn (Node.init cfg height vals me skip)).signed.length) :
-    ¬ (((ins.foldl stepIn (Node.init cfg height vals me skip)).signed[i]'(by omega)).height =
-          ((ins.foldl stepIn (Node.init cfg height vals me skip)).signed[j]).height ∧
-       ((ins.foldl stepIn (Node.init cfg height vals me skip)).signed[i]'(by omega)).round =
-          ((ins.foldl stepIn (Node.init cfg height vals me skip)).signed[j]).round ∧
-       ((ins.foldl stepIn (Node.init cfg height vals me skip)).signed[i]'(by omega)).type =
-          ((ins.foldl stepIn (Node.init cfg height vals me skip)).signed[j]).type) :=
-  (run_lock_rule cfg height vals me skip ins hs).uniq i j hij hj
+    (tab : List (Name × Int × Bool)) (ins : List In) (hs : Scheduled (Node.start cfg height vals me skip tab) ins)
+    (i j : Nat) (hij : i < j) (hj : j < (ins.foldl stepIn (Node.start cfg height vals me skip tab)).signed.length) :
+    ¬ (((ins.foldl stepIn (Node.start cfg height vals me skip tab)).signed[i]'(by omega)).height =
+          ((ins.foldl stepIn (Node.start cfg height vals me skip tab)).signed[j]).height ∧
+       ((ins.foldl stepIn (Node.start cfg height vals me skip tab)).signed[i]'(by omega)).round =
+          ((ins.foldl stepIn (Node.start cfg height vals me skip tab)).signed[j]).round ∧
+       ((ins.foldl stepIn (Node.start cfg height vals me skip tab)).signed[i]'(by omega)).type =
+          ((ins.foldl stepIn (Node.start cfg height vals me skip tab)).signed[j]).type) :=
+  (run_lock_rule cfg height vals me skip tab ins hs).uniq i j hij hj
 
 /-- inductive from any state that satisfies the invariant -/
 theorem step_keeps_lock_rule (n : Node) (inp : In) (i : A3Inv n) (hw : WellTimed n inp) : A3Inv (stepIn n inp) :=
